@@ -547,6 +547,9 @@ pub struct Lineage {
     pub removed: BTreeMap<u64, Snapshot>,
     /// versions that are listed but could not be read when first seen (version -> error)
     pub unreadable: BTreeMap<u64, String>,
+    /// fragment id -> distinct physical fragments (joined data file paths) that carried this id
+    /// in some version of this lineage
+    pub frag_files: BTreeMap<u64, BTreeSet<String>>,
     /// where this lineage was cut from (branch / clone)
     pub parent: Option<(Loc, u64)>,
 }
@@ -554,6 +557,17 @@ pub struct Lineage {
 impl Lineage {
     pub fn latest(&self) -> u64 {
         self.head.manifest().version
+    }
+    /// fragment ids that named two different physical fragments in this lineage's history
+    /// (Overwrite restarts fragment ids at 0; Restore republishes the old max_fragment_id)
+    pub fn reused_fragment_ids(&self) -> Vec<u64> {
+        self.frag_files.iter().filter(|(_, s)| s.len() > 1).map(|(k, _)| *k).collect()
+    }
+    pub fn note_fragments(&mut self, ds: &Dataset) {
+        for f in ds.manifest().fragments.iter() {
+            let sig = f.files.iter().map(|d| d.path.as_str()).collect::<Vec<_>>().join("+");
+            self.frag_files.entry(f.id).or_default().insert(sig);
+        }
     }
 }
 
@@ -611,6 +625,8 @@ pub struct Hist {
     pub counter: u64,
     pub next_actor: usize,
     pub snapshots_taken: u64,
+    /// case index (for evidence only)
+    pub case: u64,
 }
 
 pub fn panic_msg(p: &Box<dyn std::any::Any + Send>) -> String {
@@ -654,6 +670,7 @@ impl Hist {
             counter: 0,
             next_actor: 10,
             snapshots_taken: 0,
+            case: 0,
         }
     }
 
@@ -760,6 +777,7 @@ impl Hist {
                         snaps: BTreeMap::new(),
                         removed: BTreeMap::new(),
                         unreadable: BTreeMap::new(),
+                        frag_files: BTreeMap::new(),
                         parent: None,
                     },
                 );
@@ -971,7 +989,7 @@ impl Hist {
                 let ds = if v == latest {
                     Ok(lin.head.clone())
                 } else {
-                    lin.head.checkout_version(v).await
+                    lin.head.checkout_version((loc.branch.clone(), Some(v))).await
                 };
                 let ds = match ds {
                     Ok(d) => d,
@@ -986,6 +1004,7 @@ impl Hist {
                         continue;
                     }
                 };
+                lin.note_fragments(&ds);
                 let snap = match AssertUnwindSafe(take_snapshot(&ds, &raw)).catch_unwind().await {
                     Ok(r) => r,
                     Err(p) => Err(format!("panic: {}", panic_msg(&p))),
@@ -1499,7 +1518,7 @@ impl Hist {
         let v = *self.rng.pick(&cands);
         *desc = json!({"to": v, "latest": latest});
         let lin = self.lin.get_mut(loc).unwrap();
-        let mut old = lance_try!(lin.head.checkout_version(v).await);
+        let mut old = lance_try!(lin.head.checkout_version((loc.branch.clone(), Some(v))).await);
         lance_try!(old.restore().await);
         lin.head = old;
         if let Some(m) = lin.models.get(&v) {
@@ -1595,6 +1614,7 @@ impl Hist {
                 snaps: BTreeMap::new(),
                 removed: BTreeMap::new(),
                 unreadable: BTreeMap::new(),
+                frag_files: BTreeMap::new(),
                 parent: Some((loc.clone(), v)),
             },
         );
@@ -1687,6 +1707,7 @@ impl Hist {
                 snaps: BTreeMap::new(),
                 removed: BTreeMap::new(),
                 unreadable: BTreeMap::new(),
+                frag_files: BTreeMap::new(),
                 parent: Some((loc.clone(), v)),
             },
         );
@@ -1823,7 +1844,7 @@ impl Hist {
         }
         let v = *self.rng.pick(&cands);
         let do_append = self.rng.bool();
-        let old = lance_try!(self.lin[loc].head.checkout_version(v).await);
+        let old = lance_try!(self.lin[loc].head.checkout_version((loc.branch.clone(), Some(v))).await);
         let extra = Extra::Stale {
             loc: loc.clone(),
             from: v,
@@ -2010,6 +2031,19 @@ impl Hist {
             report.count(&format!("op_{}_{}", st.kind.name(), st.outcome.label()), 1);
             if matches!(st.outcome, Outcome::Rejected(_)) {
                 report.rejected();
+            }
+        }
+        for st in &self.steps {
+            if let Outcome::Failed(m) | Outcome::Panicked(m) = &st.outcome {
+                let key: String = m.chars().filter(|c| c.is_ascii_alphabetic() || *c == ' ').take(70).collect();
+                let k = format!("op_failure[{}:{}]", st.kind.name(), key.trim());
+                report.count(&k, 1);
+                if report.counter(&k) == 1 {
+                    report.set(
+                        &format!("{k}.first"),
+                        json!({"seed": report.seed, "case": self.case, "step": st.idx, "config": self.cfg.describe(), "msg": m, "ops": self.ops_json(20)}),
+                    );
+                }
             }
         }
         report.count("ops_executed", self.steps.len() as u64);
